@@ -17,7 +17,7 @@ for blk in blocks:
     for i, l in enumerate(lines):
         t = l.strip()
         if re.match(r"^(Previous )?(read|write|atomic read|atomic write) at|^(Read|Write|Atomic)", t) and i + 1 < len(lines):
-            tops.append(lines[i + 1].strip().split("(")[0])
+            tops.append(lines[i + 1].strip().rsplit("(", 1)[0])
     sig = " <-> ".join(sorted(tops))
     if sig in seen:
         continue
